@@ -39,8 +39,8 @@ PROP = {'rule': 'rapid state machine (-rapid.steps=50) over the real migration R
                            'fault-injection actions against the real controller, with a recording evictor and an independent oracle on the raw API objects',
               'text': 'Generated-history search: every Evict call of a reservation-first job is stamped with the persisted Reservation and pod '
                       'at that instant and must find the Reservation present, Available, scheduled on a node other than the pod\'s, not '
-                      'pending / unschedulable / expired and not held by another pod; once a job is persisted as Succeeded or Failed no later '
-                      'reconcile may change the phase or issue Evict / CreateReservation; a job failed by TTL must leave no Reservation under '
+                      'pending / unschedulable / expired and not held by another pod; once Succeeded or Failed has been written for a job no later '
+                      'status write (even inside the same reconcile) may carry another phase and no Evict / CreateReservation may follow; a job failed by TTL must leave no Reservation under '
                       'its reference; in histories where no API call failed a job issues Evict at most once. Exploration, not proof: absence '
                       'of violations over the sampled histories.',
               'note': 'fake API without stale reads; no preemption path in this tree; object limiters off; environment restricted to '
